@@ -15,7 +15,7 @@ BOUNDS = {
     "thorough": "up to 8 slices / 4x3 crystal / 4 members",
 }
 OUTSIDE = ["array values of the projection integrals (stub returns the identity of the slice and of the atoms it was given)", "lazy builds (dask)"]
-STUBS = ["integrator.integrate_on_grid(atoms, a, b, ...) -> constant array 1000*a + sum of atom x-positions (identifies slice and configuration)"]
+STUBS = ["np.random.default_rng(...).integers -> the k-th draw of a generator is the symbolic integer draw_k (crystal with several unit configurations)", "integrator.integrate_on_grid(atoms, a, b, ...) -> constant array 1000*a + sum of atom x-positions (identifies slice and configuration)"]
 ASSUMPTIONS = ["0 <= first_slice <= last_slice <= number of slices"]
 
 import abtem
@@ -152,6 +152,72 @@ def R_E(ncfg, n):
 """, NCFG=ncfg, N=n)
 
 
+class _StubRNG:
+    """uninterpreted generator: the k-th draw of a fresh generator is the symbolic integer draw{k}"""
+
+    def __init__(self, c):
+        self.c, self.k = c, 0
+
+    def integers(self, lo, hi=None, **kw):
+        if hi is None:
+            lo, hi = 0, lo
+        v = self.c.int(f"draw{self.k}", lo, hi - 1)
+        self.k += 1
+        return int(v)
+
+
+def _crystal_ensemble(n, ncfg, reps):
+    """unit with several configurations: the configuration drawn for repetition i must not depend on the window"""
+    rp = R_CE(n, ncfg, reps)
+
+    def fn(c):
+        total = n * reps
+        arr = np.zeros((ncfg, n, 2, 2), dtype=np.float32)
+        for k in range(ncfg):
+            for i in range(n):
+                arr[k, i] = 100 * (k + 1) + i
+        from abtem.core.axes import FrozenPhononsAxis
+        unit = PotentialArray(arr, slice_thickness=0.5, sampling=0.5, ensemble_axes_metadata=[FrozenPhononsAxis()])
+        pot = abtem.CrystalPotential(unit, repetitions=(1, 1, reps), seeds=(7,))
+        first = c.int("first", 0, total); last = c.int("last", 0, total)
+        c.assume(first <= last)
+        f, l = int(first), int(last)
+
+        class _R:
+            @staticmethod
+            def default_rng(seed=None):
+                return _StubRNG(c)
+
+        shim = snp.make_shim(random=_R)
+        patch.set(IAM, "np", shim)
+        try:
+            full = [_sig(s) for s in pot.generate_slices()]
+            win = [_sig(s) for s in pot.generate_slices(f, l)]
+        except (IndexError, ValueError, RuntimeError, StopIteration) as ex:
+            c.prove("crystal_ensemble.no_exception", False, replay=rp, info=repr(ex))
+            return
+        c.prove("crystal_ensemble.window_uses_the_configurations_of_the_full_sequence", len(full) == total and win == full[f:l], replay=rp, info=f"[{f},{l})")
+    return fn
+
+
+def R_CE(n, ncfg, reps):
+    return make("""
+    import abtem
+    from abtem.potentials.iam import PotentialArray
+    from abtem.core.axes import FrozenPhononsAxis
+    arr = np.zeros((NCFG, N, 4, 4), np.float32)
+    for k in range(NCFG):
+        for i in range(N): arr[k, i] = 100 * (k + 1) + i
+    unit = PotentialArray(arr, slice_thickness=0.5, sampling=0.5, ensemble_axes_metadata=[FrozenPhononsAxis()])
+    f, l = int(V['first']), int(V['last'])
+    for seed in range(1, 9):
+        pot = abtem.CrystalPotential(unit, repetitions=(1, 1, REPS), seeds=(seed,))
+        full = [float(np.asarray(s.array).ravel()[0]) for s in pot.generate_slices()]
+        win = [float(np.asarray(s.array).ravel()[0]) for s in pot.generate_slices(f, l)]
+        if win != full[f:l]: bad, why = True, f"seed {seed}: window [{f},{l}) yields {win}, the full sequence there is {full[f:l]}"
+""", N=n, NCFG=ncfg, REPS=reps)
+
+
 def cases(tier):
     q = tier == "quick"
     out = []
@@ -161,6 +227,8 @@ def cases(tier):
         out.append(Case(f"window.atoms.n{n}", _window("atoms", n), max_paths=400))
     for n, r in ((1, 3), (3, 2), (2, 3)) if q else ((1, 3), (3, 2), (2, 3), (4, 3), (3, 4)):
         out.append(Case(f"window.crystal.{n}x{r}", _window("crystal", n, r), max_paths=400))
+    for n, ncfg, r in ((2, 2, 2), (2, 3, 3)) if q else ((2, 2, 2), (2, 3, 3), (3, 3, 4)):
+        out.append(Case(f"window.crystal_ensemble.{n}x{r}.cfg{ncfg}", _crystal_ensemble(n, ncfg, r), max_paths=20000, budget_s=240 if q else 1500))
     for ncfg, n in ((2, 2), (3, 3)) if q else ((2, 2), (3, 3), (4, 4)):
         out.append(Case(f"build.ensemble.cfg{ncfg}.n{n}", _ensemble(ncfg, n), max_paths=400))
     return out
